@@ -37,7 +37,10 @@ def build(seed, shuffle_seed=None):
         if x < 0.2:
             return ref("Color", P[0]), None
         if x < 0.3 and aliases:
-            n, _ = r.choice(aliases)
+            n, a = r.choice(aliases)
+            # a declaration on the field decides, whatever the alias behind it says (aliases of primitives without a safety of their own)
+            if a["alias"]["alias"]["type"] == "primitive" and not a["alias"].get("safety") and r.random() < 0.5:
+                return ref(n, P[0]), r.choice(["SAFE", "SAFE", "UNSAFE", "DO_NOT_LOG"])
             return ref(n, P[0]), None
         s = r.choices(["SAFE", None, "UNSAFE", "DO_NOT_LOG"], [70, 12, 9, 9])[0]
         t = prim(r.choice(["STRING", "INTEGER", "UUID", "DOUBLE"]))
@@ -91,6 +94,13 @@ def build(seed, shuffle_seed=None):
             kw["tags"] = [r.choice(NOISE_TAGS)]
         elif x < 0.41:
             kw["markers"] = [r.choice(NOISE_MARKERS)]
+        elif x < 0.49:
+            # an explicit declaration on the argument together with the legacy marker / tag: the declaration wins
+            kw["safety"] = r.choice(["UNSAFE", "DO_NOT_LOG", "UNSAFE", "SAFE"])
+            if r.random() < 0.5:
+                kw["markers"] = [SAFE_MARKER]
+            else:
+                kw["tags"] = ["safe"]
         args.append(arg("body", t, "body", **kw))
         for q in range(r.choice([0, 1, 2])):
             qt = r.choice([ref("Color", P[0]), opt(ref("Color", P[0])), prim("STRING"), lst(prim("INTEGER")), external("ExtQ", "java.ext", ref("Color", P[0])),
@@ -101,6 +111,22 @@ def build(seed, shuffle_seed=None):
                 kw["safety"] = r.choice(["SAFE", "UNSAFE"])
             args.append(arg("q%d" % q, qt, "query", "q%d" % q, **kw))
         eps.append(endpoint("ep%d" % e, "POST", "/c08/ep%d" % e, args))
+    if r.random() < 0.4:
+        # the same not-safe type reached through a field that declares its safety and through one that does not:
+        # the declaration covers only its own field (alias of a primitive without a safety of its own)
+        types.append(alias("AliPlain", P[0], prim("STRING")))
+        decl = r.choice(["SAFE", "SAFE", "UNSAFE"])
+        fs = [field("first", ref("AliPlain", P[0]), decl), field("second", ref("AliPlain", P[0]))]
+        if r.random() < 0.3:
+            fs.reverse()
+        if r.random() < 0.5:
+            fs.insert(r.randrange(3), field("extra", ref("Color", P[0])))
+        types.append(obj("Twice", P[1], fs))
+        tt = ref("Twice", P[1])
+        eps.insert(r.randrange(len(eps) + 1), endpoint("twice", "POST", "/c08/twice", [arg("body", r.choice([tt, opt(tt), lst(tt)]), "body")]))
+        if r.random() < 0.5:
+            # ... and an argument of the bare alias elsewhere (fills or does not fill any cache first, depending on the order)
+            eps.insert(r.randrange(len(eps) + 1), endpoint("plain", "POST", "/c08/plain", [arg("body", ref("AliPlain", P[0]), "body")]))
     services = [service("GraphService", P[0], eps[: len(eps) // 2 + 1]), service("OtherService", P[1], eps[len(eps) // 2 + 1:])]
     services = [s for s in services if s["endpoints"]]
     if shuffle_seed is not None:
